@@ -122,9 +122,12 @@ pub fn execute_all(plan: &Arc<dyn ExecutionPlan>, env: &Env, threads: u8, timeou
 pub fn metric_sum(plan: &Arc<dyn ExecutionPlan>, name: &str) -> usize {
     let mut total = 0;
     if let Some(m) = plan.metrics() {
-        if let Some(v) = m.sum_by_name(name) {
-            total += v.as_usize();
-        }
+        let v = match name {
+            "spill_count" => m.spill_count(),
+            "spilled_rows" => m.spilled_rows(),
+            _ => m.sum_by_name(name).map(|v| v.as_usize()),
+        };
+        total += v.unwrap_or(0);
     }
     for c in plan.children() {
         total += metric_sum(c, name);
